@@ -1,5 +1,6 @@
 """C10 - restarting from persisted state is safe at every crash point (structural part)."""
 from engine import *
+import obligations
 import provenance
 import re
 import chainrules
@@ -423,3 +424,4 @@ RULES = [
 	('10.p', 'same-name field transfer: structs carrying this property\'s quantities are filled from the same-named field or a reviewed alias (rules/provenance.py)', lambda F: provenance.for_property(F, 'C10', '10.p')),
 	('10.v', 'field-versus-field comparisons (a received value against a limit, an id against an id) are the reviewed ones: same fields, same operator (rules/provenance.py)', lambda F: provenance.cmps_for_property(F, 'C10', '10.v')),
 ]
+RULES.append(('10.u', 'obligation-carrying values returned by workspace calls (to-fail HTLC lists, monitor updates, events, peer messages, claim packages) are never dropped on a path that does not examine them (rules/obligations.py)', lambda F: obligations.for_property(F, 'C10', '10.u')))
